@@ -201,7 +201,51 @@ def check_parity(ctx, rep, RULE="S4"):
     rep.ob(RULE, not bad, ret, f, construct="parity of the out-bond permutation (%d total orders of 0..5 elements, %s)" % (n_orders, mode),
            how="decision == (inversion parity is odd) on every order", witness=w, nontrivial=True, key="inversion-parity")
     rep.ob(RULE, True, ret, f, construct=unparse(ret.value)[:70], how="decision tail depends on the list %s only" % nm, key="odd-inverts")
+    _check_early_returns(ctx, rep, RULE, f, tail)
     rep.floor(RULE, 2)
+
+
+def _check_early_returns(ctx, rep, RULE, f, tail):
+    """every `return <constant>` placed before the decision tail is taken only for a number of bonds for which that constant IS
+    the parity decision: all permutations of 0 or 1 elements are even, so `return False` is right exactly under len < 2"""
+    early = []
+    for st in f.node.body:
+        if any(st is t for t in tail):
+            break
+        for n in ast.walk(st):
+            if isinstance(n, ast.Return):
+                early.append((st, n))
+    if not early:
+        return
+    seqs = {x.targets[0].id for x in f.node.body if isinstance(x, ast.Assign) and len(x.targets) == 1 and isinstance(x.targets[0], ast.Name)}
+    from sa.sym import Frame
+    for st, r in early:
+        probs = []
+        if not (isinstance(st, ast.If) and len(st.body) == 1 and st.body[0] is r and not st.orelse and isinstance(r.value, ast.Constant)
+                and isinstance(r.value.value, bool)):
+            probs.append("an early return of a shape the parity rule cannot evaluate")
+        else:
+            names = {n.id for n in ast.walk(st.test) if isinstance(n, ast.Name) and n.id in f.locals}
+            if len(names) != 1 or not (names <= seqs):
+                probs.append("the early return does not depend on one local list only")
+            else:
+                nm = next(iter(names))
+                for n_ in range(0, 6):
+                    eng = Engine(ctx, Hooks())
+                    frm = Frame(f, 0, None)
+                    s0 = State()
+                    s0.env[nm] = Tup([Unk(("bond", n_, k_)) for k_ in range(n_)], "list")
+                    vals = [eng.truth(v) for _s, v in eng.eval(frm, st.test, s0)]
+                    if not vals or not all(isinstance(v, bool) for v in vals):
+                        probs.append("the condition of the early return is not decided by the number of out-bonds")
+                        break
+                    if any(vals) and (n_ >= 2 or r.value.value is not False):
+                        probs.append("for %d out-bonds the function returns %s without looking at their order, although both even and odd "
+                                     "orderings of %d bonds exist: the centres concerned are never (or always) inverted" % (n_, r.value.value, n_))
+                        break
+        rep.ob(RULE, not probs, r, f, construct="early %s" % unparse(st)[:60].replace("\n", " "),
+               how="taken only for fewer than two out-bonds, where every ordering is even", witness="; ".join(probs) or None,
+               nontrivial=True, key="early-return/%s" % ("ok" if not probs else "bad"))
 
 
 def _check_parity_decider(ctx, rep, RULE, f, ret, g):
